@@ -127,6 +127,42 @@ func (c *Ctx) addStats(st *mc.Stats) {
 	c.Out.ModeT = append(c.Out.ModeT, st)
 }
 
+// runBFS runs one Mode-S model (whole model on one shard), or replays a recorded path of it.
+func (c *Ctx) runBFS(m *mc.Model, opt mc.BFSOptions) {
+	if c.replay != nil {
+		if c.replay.Scenario == m.Name && c.replay.Params == m.Params {
+			fails, notes := mc.ReplayBFS(m, c.replay.Choices)
+			fmt.Printf("replay model=%s params=%s\n", m.Name, m.Params)
+			for _, n := range notes {
+				fmt.Println("  " + n)
+			}
+			for _, f := range fails {
+				fmt.Printf("  FAIL [%s] %s\n", f.Sig, f.Msg)
+			}
+			if len(fails) > 0 {
+				fmt.Println("REPLAY: violation reproduced")
+				os.Exit(1)
+			}
+			fmt.Println("REPLAY: no violation")
+			os.Exit(0)
+		}
+		return
+	}
+	if c.only != "" && !strings.Contains(m.Name+" "+m.Params, c.only) {
+		return
+	}
+	if !c.Mine() || c.expired() {
+		return
+	}
+	opt.Deadline = c.Deadline
+	st := mc.BFS(m, opt)
+	if c.verbose {
+		fmt.Fprintf(os.Stderr, "%-28s %-80.80s states=%-8d trans=%-9d depth=%d/%d fixpoint=%v exh=%v viol=%v %.1fs\n", st.Model, st.Params,
+			st.States, st.Transitions, st.Depth, st.MaxDepth, st.Fixpoint, st.Exhaustive, st.SigCounts, st.WallS)
+	}
+	c.AddBFS(st)
+}
+
 // AddBFS records a Mode-S result.
 func (c *Ctx) AddBFS(st *mc.BFSStats) {
 	for _, v := range st.Violations {
